@@ -6,6 +6,9 @@ import "errors"
 
 var verifErrs = []error{errors.New("e0"), errors.New("e1"), errors.New("e2"), errors.New("e3"), errors.New("e4"), errors.New("e5")}
 
+// different items may fail for the same reason: distinct error values with one message
+var verifSameErrs = []error{errors.New("same"), errors.New("same"), errors.New("same"), errors.New("same"), errors.New("same"), errors.New("same")}
+
 func VerifAMR() {
 	n := verifChoice("n", verifParam("nmax", 3)+1)
 	payload := make([]int, n)
@@ -17,6 +20,10 @@ func VerifAMR() {
 	for i := range fail {
 		fail[i] = verifBool("fail" + verifItoa(i))
 	}
+	errsOf := verifErrs
+	if n >= 2 && verifChoice("samemessage", 2) == 1 {
+		errsOf = verifSameErrs
+	}
 	inReduce := false
 	reduced := make([]int, n)
 	returned := false
@@ -25,7 +32,7 @@ func VerifAMR() {
 			verifAssert(!returned, "map function runs before the helper returns")
 			mapCalls[i]++
 			if fail[i] {
-				return 0, verifErrs[i]
+				return 0, errsOf[i]
 			}
 			return i, nil
 		},
@@ -39,6 +46,12 @@ func VerifAMR() {
 			return append(acc, v)
 		})
 	returned = true
+	nfailTotal := 0
+	for i := 0; i < n; i++ {
+		if fail[i] {
+			nfailTotal++
+		}
+	}
 	nfail := 0
 	for i := 0; i < n; i++ {
 		verifAssert(mapCalls[i] == 1, "every item is mapped exactly once")
@@ -47,11 +60,15 @@ func VerifAMR() {
 			verifAssert(reduced[i] == 0, "a failed item is not reduced")
 			found := 0
 			for _, e := range errs {
-				if e.Message == verifErrs[i].Error() {
+				if e.Message == errsOf[i].Error() {
 					found++
 				}
 			}
-			verifAssert(found == 1, "every error is returned exactly once")
+			if errsOf[i].Error() == "same" {
+				verifAssert(found == nfailTotal, "every error is returned, also when several items fail with the same message")
+			} else {
+				verifAssert(found == 1, "every error is returned exactly once")
+			}
 		} else {
 			verifAssert(reduced[i] == 1, "every success is reduced exactly once")
 			found := 0
